@@ -100,6 +100,12 @@ TReopen ==
               \cup (IF Ev.post.len # S!CountOf(newkv, N) THEN {"len"} ELSE {})
   /\ UNCHANGED <<now, seen, klen>>
 
+(* a clean reopen of a file the store itself wrote must succeed *)
+TReopenFail ==
+  /\ Ev.e = "reopen_fail"
+  /\ flags' = {"reopen"}
+  /\ UNCHANGED <<cfg, kv, floor, pin, now, seen, klen>>
+
 (* ------------------------------------------------------------------ keyed calls *)
 KeyedOps == {"insert", "get", "get_size", "contains", "delete", "cas", "incr", "iia", "patch",
              "update_ttl", "get_ttl"}
@@ -214,7 +220,7 @@ TFlushSweep ==
 
 TNext == /\ l <= Len(Rec)
          /\ l' = l + 1
-         /\ (TReset \/ TTick \/ TReopen \/ TKeyed \/ TRange \/ TFlushSweep)
+         /\ (TReset \/ TTick \/ TReopen \/ TReopenFail \/ TKeyed \/ TRange \/ TFlushSweep)
 
 TSpec == TInit /\ [][TNext]_tvars
 
